@@ -3,6 +3,7 @@ CONSTANTS
  NK = 3
  MaxLayer = 2
  MaxH = 2
+ Restore = TRUE
  AsIs = TRUE
 INVARIANTS NoFailure Agrees
 CHECK_DEADLOCK FALSE
